@@ -94,6 +94,10 @@ def statements(pa: str, qa: str) -> List[str]:
         # aliases of members reached through a class whose linearisation differs from a depth-first walk of its bases
         f'from {pa}.c import Widget0\nZr0 = Widget0.render\nZo0 = Widget0.only_base', f'from {pa}.c import Page0 as Pg0\nZr1 = Pg0.render', f'import {pa}.c as cm0\nZr2 = cm0.Widget0.render',
         f'from {pa}.b import fb, vb, Kb', f'import {pa}.b as mb2\nZf = mb2.fb\nZv = mb2.vb', f'from {pa}.c import fc as fcc, _hc',
+        # a class that binds, by an import or an alias in its own body, a name its base class defines or its module binds as well
+        f'from {pa}.c import Right0\nclass Sub2(Right0):\n    "ID:Sub2"\n    from {pa}.b import fb as render\n    from {pa}.b import Kb as only_base\nZs2 = Sub2.render\nZs3 = Sub2.only_base',
+        f'from {pa}.c import Right0\nfrom {pa}.b import Kb as Fancy0\nclass Sub3(Right0):\n    "ID:Sub3"\n    render = Fancy0\nclass Sub4(Sub3):\n    "ID:Sub4"\nZs4 = Sub3.render\nZs5 = Sub4.render',
+        f'from {pa}.c import Kc as Style0\nfrom {pa}.b import Kb as Fancy1\nclass Btn0:\n    "ID:Btn0"\n    Style0 = Fancy1\nZb0 = Btn0.Style0\nZb1 = Style0',
         'Z15 = Dk', 'Z16 = Df\nclass Mine2(Dk):\n    "ID:Mine2"',
         f'from {pa}.w2 import go', f'from {pa}.w2 import go as go0, other2', f'from {pa} import w2 as w3\nZ17 = w3.go', f'import {pa}.w2\nZ18 = {pa}.w2.go\nZ19 = {pa}.w2.other2', f'from {pa}.w2 import *',
         f'from {pa}.emp import *', f'from {pa}.c import Widget0, Page0 as P0', f'import {pa}.c as dm', f'from {pa}.c import Widget0\nclass Mine(Widget0):\n    "ID:Mine"',
